@@ -43,8 +43,11 @@ Definition v_lop (v : val) : option lop :=
   | _ => None
   end.
 (* ---- node iterator calls *)
-Definition v_ncall (v : val) : option ncall :=
-  match v with VL [VN 0] => Some CNext | VL [VN 1; VN n] => Some (CNth (N.to_nat n)) | _ => None end.
+(* a skip count beyond [bound] is replaced by [bound] before it is converted to the unary [nat] of the model (the
+   harness sends skips of 2^32 and more): for bound >= the number of k-mers left this changes neither the specification
+   (NodeIterProofs.spec_run_clamp) nor, by C18_iter_refines, the model *)
+Definition v_ncall (bound : N) (v : val) : option ncall :=
+  match v with VL [VN 0] => Some CNext | VL [VN 1; VN n] => Some (CNth (N.to_nat (N.min n bound))) | _ => None end.
 Definition of_optN (o : option N) : val := match o with Some x => VL [VN x] | None => VL [] end.
 Definition of_optNs (o : option (list N)) : val := match o with Some x => VL [ofNs x] | None => VL [] end.
 
@@ -106,13 +109,17 @@ Definition seq_ops : list (string * handler) :=
     ("l.get_kmer"%string, fun a => match a with [VN w; VN k; VL ws; VN pos] => match vlistN ws with
         | Some x => Some (ofopt ofN (l_get_kmer (cfgv w k) x (N.to_nat pos))) | None => None end | _ => None end);
     (* node iterator *)
-    ("ni.run"%string, fun a => match a with [VN w; VN k; s; v; VL calls] => match v_dstr s, v_slc v, omap v_ncall calls with
-        | Some d, Some x, Some cs =>
+    ("ni.run"%string, fun a => match a with [VN w; VN k; s; v; VL calls] =>
+      match v_dstr s, v_slc v with
+      | Some d, Some x =>
+        match omap (v_ncall (N.of_nat (s_length x) + 8)) calls with
+        | Some cs =>
             let c := cfgv w k in
             Some (match ni_into_iter c d x with
                   | Some it => VL [ofnat (ni_size_hint it); ofopt (fun l => VL (map of_optN l)) (ni_run c d x it cs)]
                   | None => VBot end)
-        | _, _, _ => None end | _ => None end);
+        | None => None end
+      | _, _ => None end | _ => None end);
 
     (* ---------------- specification level ---------------- *)
     ("s.d.hist"%string, fun a => match a with [VL ops] => match omap v_dop ops with
@@ -154,7 +161,7 @@ Definition seq_ops : list (string * handler) :=
         | Some d => Some (ofNs (kmer_at (N.to_nat k) d (N.to_nat pos))) | None => None end | _ => None end);
     ("s.kmer_exts"%string, fun a => match a with [VN k; VL l; VL ls; VL rs] => match vlistN l, vlistN ls, vlistN rs with
         | Some d, Some L, Some R => Some (VL (spec_kmer_exts (N.to_nat k) d L R)) | _, _, _ => None end | _ => None end);
-    ("s.ni"%string, fun a => match a with [VN k; VL l; VL calls] => match vlistN l, omap v_ncall calls with
+    ("s.ni"%string, fun a => match a with [VN k; VL l; VL calls] => match vlistN l, omap (v_ncall (N.of_nat (length l) + 8)) calls with
         | Some d, Some cs => let ks := kmers (N.to_nat k) d in
             Some (VL [ofnat (length ks); VL (map of_optNs (spec_run ks cs))]) | _, _ => None end | _ => None end)
   ].
